@@ -11,7 +11,7 @@ memo       bfs over the *module state* (deep snapshot of every module-level data
 arguments  every public callable x representative arguments: no list/dict argument is modified.
 instances  every class in scope: all operation scripts of length <= 2 on one instance leave a
            sibling, the class defaults and a later-created third instance unchanged.
-copies     Note(n) / NoteContainer(nc): scripts on the copy leave the original unchanged and
+copies     Note(n) / NoteContainer(nc) / NoteContainer().add_notes(nc) / NoteContainer() + nc: scripts on the copy leave the original unchanged and
            vice versa.
 fft        bfs over the lookup cursor of extra.fft._find_log_index: every lookup in every
            reachable cursor state returns what a cold interpreter returns for that input.
@@ -1105,14 +1105,24 @@ def run_copies(case):
     ensure_tmp()
     SPACE.install_cold()
     CLS_SPACE.install_cold()
-    ow = _owner(case[0])
-    orig = COPY_SOURCES[case[0]]()
-    cp = ow.target(orig)
+    cname, _, route = case[0].partition(":")
+    ow = _owner(cname)
+    orig = COPY_SOURCES[cname]()
+    if route == "":
+        cp = ow.target(orig)
+    elif route == "add_notes":          # a container filled from another one is a copy of it, too
+        cp = ow.target()
+        cp.add_notes(orig)
+    elif route == "plus":
+        cp = ow.target()
+        cp + orig
+    else:
+        raise engine.HarnessError("copy route %r" % route)
     target, other = (cp, orig) if case[1] == "copy" else (orig, cp)
     before_other = observe(other)
     before_target = observe(target)
     S.trans(1)
-    eff = apply_ops(case[0], target, case[2])
+    eff = apply_ops(cname, target, case[2])
     changed = observe(target) != before_target
     S.count("copy_scripts_with_effect" if changed else "copy_scripts_without_effect")
     if changed and len(case[2]) == 2:
@@ -1128,7 +1138,7 @@ def run_copies(case):
 
 def gen_copies(shard):
     owner_name, side, maxlen, first = shard
-    for script in _scripts(class_ops(owner_name), maxlen, first):
+    for script in _scripts(class_ops(owner_name.partition(":")[0]), maxlen, first):
         yield [owner_name, side, script]
 
 
@@ -1211,8 +1221,9 @@ def explore(ctx):
 
     if ctx.want("copies"):
         maxlen = ctx.pick(2, 2)
-        ctx.product("copies", [(c, side, maxlen, i) for c in sorted(COPY_SOURCES) for side in ("copy", "original")
-                               for i in range(len(class_ops(c)))], gen_copies)
+        routes = sorted(COPY_SOURCES) + ["NoteContainer:add_notes", "NoteContainer:plus"]
+        ctx.product("copies", [(c, side, maxlen, i) for c in routes for side in ("copy", "original")
+                               for i in range(len(class_ops(c.partition(":")[0])))], gen_copies)
         if not ctx.only:
             ctx.guard("copies: scripts with an effect on the operated object", ctx.counter("copy_scripts_with_effect"), 200)
 
